@@ -194,6 +194,7 @@ def run_case(case):
         "failures": uniq,
         "counters": counters,
         "keys": keys,
+        "executions": counters["injections"] + 1,  # the traced fault-free run + one run per injected fault
         "sample": {"cell": {k: case[k] for k in ("enc", "mode", "suffix", "nfiles", "fault")}, "ops": ops, "faults_fired": counters["faults_fired"]},
     }
 
